@@ -39,7 +39,7 @@ Definition expect_delivery (what : string) (s t : ni_inst) (tr : trace) : fails 
 (* ---------------------------------------------------------------- C02: ID tables *)
 Definition c02_pair (n : netlist) (st : ni_inst * ni_inst) : fails :=
   let '(s, t) := st in
-  let h := hdr_of_id (ni_id t) in
+  let h := hdr_of_id n (ni_id t) in
   (if may_req s t then expect_delivery "request" s t (send n Req s h) else []) ++
   (if may_rsp s t then expect_delivery "response" s t (send n Rsp s h) else []).
 Definition chk_C02 (n : netlist) : fails :=
@@ -68,14 +68,14 @@ Definition hdr_for (n : netlist) (s t : ni_inst) : res hdr :=
     | Some e, IdN d =>
         match enum_value (n_ep_enum n) e with
         | Some v => match table_word n v d with
-                    | Some w => Ok (HRoute (w_val w))
+                    | Some w => Ok (hdr_of_word n (w_val w))
                     | None => Err ("no table entry [" +++ ZS v +++ "][" +++ ZS d +++ "]")
                     end
         | None => Err ("row selector " +++ e +++ " is not an ep_id_e member")
         end
     | _, _ => Err "interface has no route table row"
     end
-  else Ok (hdr_of_id (ni_id t)).
+  else Ok (hdr_of_id n (ni_id t)).
 
 Definition c14_pair (n : netlist) (st : ni_inst * ni_inst) : fails :=
   let '(s, t) := st in
@@ -384,6 +384,125 @@ Definition chk_C09 (n : netlist) : fails :=
                       | core => one "cdg-cycle" ("the channel-dependency graph of the " +++ net_name nt
                                                  +++ " network has a cycle among: " +++ concat_with " " core)
                       end) [Req; Rsp].
+
+(* ---------------------------------------------------------------- C04: XY frame and grid bisimulation *)
+Definition dir_delta (p : Z) : Z * Z :=
+  if p =? 0 then (0, 1) else if p =? 1 then (1, 0) else if p =? 2 then (0, -1)
+  else if p =? 3 then (-1, 0) else (0, 0).
+Definition rev_dir (p : Z) : Z := if p <? 4 then (p + 2) mod 4 else p.
+
+Definition unit_coord (n : netlist) (u : uref) : option (Z * Z) :=
+  match u with
+  | UNi name => match find_ni n name with
+                | Some x => match ni_id x with IdXY a b _ => Some (a, b) | _ => None end
+                | None => None
+                end
+  | URt name _ => match find_rt n name with
+                  | Some r => match r_id r with Some (IdXY a b _) => Some (a, b) | _ => None end
+                  | None => None
+                  end
+  end.
+
+(* (i) one common frame: the unit behind port p of a router sits one step in that direction *)
+Definition c04_frame_router (n : netlist) (r : rt_inst) : fails :=
+  match r_id r with
+  | Some (IdXY x y _) =>
+      flat_map (fun ps => let '(p, sl) := ps in
+        match sl with
+        | [s] => match readers n Req s with
+                 | [u] => let '(dx, dy) := dir_delta (Z.of_nat p) in
+                          match unit_coord n u with
+                          | Some (a, b) =>
+                              guard ((a =? x + dx) && (b =? y + dy)) "frame"
+                                    (r_name r +++ " at (" +++ ZS x +++ "," +++ ZS y +++ ") has " +++ uref_name u
+                                     +++ " at (" +++ ZS a +++ "," +++ ZS b +++ ") on port " +++ NS p)
+                          | None => one "frame" (uref_name u +++ " has no coordinate")
+                          end
+                 | _ => []
+                 end
+        | _ => []
+        end) (enumerate (r_req_out r))
+  | _ => one "router-id" (r_name r +++ " has no XY identity")
+  end.
+
+Record grid := { gr_m : Z; gr_n : Z; gr_att : list (string * ((Z * Z) * Z)) }.
+Definition att_at (g : grid) (x y p : Z) : option string :=
+  option_map fst (find (fun a => let '(_, ((i, j), q)) := a in (i =? x) && (j =? y) && (q =? p)) (gr_att g)).
+Definition att_of (g : grid) (name : string) : option ((Z * Z) * Z) :=
+  option_map snd (find (fun a => str_eqb (fst a) name) (gr_att g)).
+Definition ep_coord (g : grid) (name : string) : option (Z * Z) :=
+  match att_of g name with
+  | Some ((i, j), p) => let '(dx, dy) := dir_delta p in Some (i + dx, j + dy)
+  | None => None
+  end.
+
+Inductive xres := XDel (s : string) | XTurn | XLoop | XOpen | XOther (s : string).
+Definition xres_eqb (a b : xres) : bool :=
+  match a, b with
+  | XDel s, XDel t => str_eqb s t
+  | XTurn, XTurn | XLoop, XLoop | XOpen, XOpen => true
+  | _, _ => false
+  end.
+Definition xres_str (a : xres) : string :=
+  match a with
+  | XDel s => "delivered to " +++ s | XTurn => "blocked (Y-to-X turn)" | XLoop => "blocked (loop-back)"
+  | XOpen => "unconnected port" | XOther s => s
+  end.
+
+(* the X-then-Y decision stepped over the ideal m x n grid the description denotes *)
+Fixpoint ideal (fuel : nat) (g : grid) (x y inp cx cy : Z) : xres :=
+  match fuel with
+  | O => XOther "ideal walk out of fuel"
+  | S f =>
+      let out := xy_select x y cx cy 0 in
+      if out =? inp then XLoop
+      else if xy_masked inp out then XTurn
+      else if 4 <=? out then match att_at g x y out with Some t => XDel t | None => XOpen end
+      else
+        let '(dx, dy) := dir_delta out in
+        let x' := x + dx in let y' := y + dy in
+        if (0 <=? x') && (x' <? gr_m g) && (0 <=? y') && (y' <? gr_n g)
+        then ideal f g x' y' (rev_dir out) cx cy
+        else match att_at g x y out with Some t => XDel t | None => XOpen end
+  end.
+
+Definition classify (o : outcome) : xres :=
+  match o with
+  | Delivered u _ => XDel u
+  | Failed why _ =>
+      if str_eqb why "Y-to-X turn blocked" then XTurn
+      else if str_eqb why "loopback blocked (input index = output index)" then XLoop
+      else if str_eqb why "output port not connected" || str_eqb why "output port out of range" then XOpen
+      else XOther why
+  end.
+
+Definition c04_pair (n : netlist) (g : grid) (exp : list (string * (Z * Z))) (st : ni_inst * ni_inst) : fails :=
+  let '(s, t) := st in
+  match att_of g (ni_name s), ep_coord g (ni_name t) with
+  | Some ((i, j), p), Some (cx, cy) =>
+      let want := ideal (Z.to_nat (gr_m g + gr_n g + 4)) g i j p cx cy in
+      let cmp (what : string) (nt : net) (h : hdr) : fails :=
+          let got := classify (t_out (send n nt s h)) in
+          guard (xres_eqb want got) "bisimulation"
+                (what +++ " " +++ ni_name s +++ " -> " +++ ni_name t +++ " (emitted destination " +++ hdr_str h
+                 +++ "): on the emitted netlist " +++ xres_str got +++ ", on the described grid " +++ xres_str want) in
+      (if may_req s t then
+         flat_map (fun e => if str_eqb (fst e) (ni_name t) then
+                              match sam_decode n (fst (snd e)) with
+                              | [r] => cmp "request" Req (hdr_of_id n (sr_idx r))
+                              | _ => one "request-destination" ("address " +++ ZS (fst (snd e)) +++ " of " +++ ni_name t
+                                                                +++ " does not decode to one rule")
+                              end
+                            else []) exp
+       else []) ++
+      (if may_rsp s t then cmp "response" Rsp (hdr_of_id n (ni_id t)) else [])
+  | _, _ => one "grid" ("no grid position for " +++ ni_name s +++ " or " +++ ni_name t)
+  end.
+
+Definition chk_C04 (n : netlist) (g : grid) (exp : list (string * (Z * Z))) : fails :=
+  guard (str_eqb (n_algo n) "XYRouting") "not-xy-routing" "netlist is not XY routed" ++
+  flat_map (c04_frame_router n) (n_rts n) ++
+  flat_map (c04_pair n g exp) (ordered_pairs n).
 
 (* ---------------------------------------------------------------- wire format *)
 Definition fails_to_sx (f : fails) : sx := xL (fun p => L [A (fst p); A (sanitize (snd p))]) f.
